@@ -15,6 +15,9 @@
 //    slope G and intercept calcBiasForAccelerationConstraints = zero-length-udot form; pverr = P*u + bias;
 //    virtual work: multiplyByGTranspose(lambda) = J'*bodyForces + mobilityForces of
 //    calcConstraintForcesFromMultipliers(lambda) = G'*lambda.
+//  history: States are judged in place; afterwards only u is changed in the last State judged, everything C07 reads (qerr, uerr, aerr,
+//    both bias vectors, G, G') is compared with a fresh State at the same (t,q,u) and all relations above are re-applied there; then a
+//    q-only and (time-dependent constraints) a t-only change with the direct comparison.
 #include "pbt.h"
 #include "mbgen.h"
 #include "consgen.h"
@@ -35,9 +38,10 @@ Calib& calib() { static Calib c; return c; }
 bool within(const char* clause, double err, double tol) { if (getenv("C07_CALIB")) { double& w = calib().worst[clause]; if (std::isfinite(err / tol)) w = std::max(w, err / tol); else w = 1e300; } return err <= tol; }
 
 // Judge one state (regime) of a built model. applyKnown=false judges the literal statement (directed reproducers).
-void judge(pbt::Ctx& ctx, const consgen::Model& cm, consgen::BuiltCons& m, const State& sIn, int regime, uint64_t seed, double udotMag, bool applyKnown) {
+// The State is judged IN PLACE (only realized, never modified): its lazily evaluated cache entries get filled, which the history steps rely on.
+void judge(pbt::Ctx& ctx, const consgen::Model& cm, consgen::BuiltCons& m, State& s, int regime, uint64_t seed, double udotMag, bool applyKnown) {
     const SimbodyMatterSubsystem& matter = m.matter; const MultibodySystem& sys = m.sys;
-    State s = sIn; sys.realize(s, Stage::Velocity);
+    sys.realize(s, Stage::Velocity);
     const int nq = s.getNQ(), nu = s.getNU(), NB = matter.getNumBodies(), nc = (int)cm.cons.size();
     const int nquat = matter.getNumQuaternionsInUse(s);
     const std::string R = std::string(regimeName(regime)) + ": ";
@@ -231,12 +235,38 @@ void judge(pbt::Ctx& ctx, const consgen::Model& cm, consgen::BuiltCons& m, const
 // Is the u of the spec non-zero?
 bool nonzeroU(const mbgen::ModelSpec& sp) { if (sp.zeroU) return false; for (auto& b : sp.bodies) for (int k = 0; k < mbgen::mobNU(b.type); ++k) if (b.u[k] != 0) return true; return false; }
 
+// Direct comparison of everything C07 looks at between a State with a history and a fresh State at the identical (t,q,u).
+bool sameAsFresh(pbt::Ctx& ctx, const char* step, consgen::BuiltCons& m, State& h, const State& pristine, const Vector& udot) {
+    const SimbodyMatterSubsystem& matter = m.matter; const MultibodySystem& sys = m.sys;
+    State f = pristine; f.setTime(h.getTime()); f.updQ() = h.getQ(); f.updU() = h.getU();
+    bool th = false, tf = false;
+    try { sys.realize(h, Stage::Velocity); } catch (const std::exception&) { th = true; }
+    try { sys.realize(f, Stage::Velocity); } catch (const std::exception&) { tf = true; }
+    if (th != tf) { ctx.fail(std::string(step) + ": realize(Velocity) " + (th ? "throws" : "succeeds") + " on the re-used State but " + (tf ? "throws" : "succeeds") + " on a fresh State with the same (t,q,u)"); return false; }
+    if (th) { ctx.label(std::string(step) + ":both-threw"); return false; }
+    auto same = [](Real a, Real b) { return a == b || (std::isnan(a) && std::isnan(b)) || std::abs(a - b) <= 1e-12 * (1 + std::abs(a) + std::abs(b)); };
+    auto cmpV = [&](const char* what, const Vector& a, const Vector& b) { if (a.size() != b.size()) { ctx.fail(std::string(step) + ": " + what + " sizes differ between the re-used and a fresh State"); return false; }
+        for (int i = 0; i < a.size(); ++i) if (!same(a[i], b[i])) { ctx.fail(std::string(step) + ": " + what + "[" + I(i) + "] = " + S(a[i]) + " in the State that was realized and queried before the change, " + S(b[i]) + " in a fresh State with the same (t,q,u): a stale cache entry survives the change"); return false; } return true; };
+    auto cmpM = [&](const char* what, const Matrix& a, const Matrix& b) { if (a.nrow() != b.nrow() || a.ncol() != b.ncol()) { ctx.fail(std::string(step) + ": " + what + " shapes differ"); return false; }
+        for (int i = 0; i < a.nrow(); ++i) for (int j = 0; j < a.ncol(); ++j) if (!same(a(i, j), b(i, j))) { ctx.fail(std::string(step) + ": " + what + "(" + I(i) + "," + I(j) + ") = " + S(a(i, j)) + " in the re-used State, " + S(b(i, j)) + " in a fresh State with the same (t,q,u)"); return false; } return true; };
+    if (!cmpV("getQErr", h.getQErr(), f.getQErr()) || !cmpV("getUErr", h.getUErr(), f.getUErr())) return false;
+    if (h.getNUDotErr() == 0) return true;
+    Vector a1, a2, b1, b2, z1, z2, g1, g2; matter.calcConstraintAccelerationErrors(h, udot, a1); matter.calcConstraintAccelerationErrors(f, udot, a2);
+    matter.calcBiasForAccelerationConstraints(h, b1); matter.calcBiasForAccelerationConstraints(f, b2); matter.calcConstraintAccelerationErrors(h, Vector(), z1); matter.calcConstraintAccelerationErrors(f, Vector(), z2);
+    matter.calcBiasForMultiplyByG(h, g1); matter.calcBiasForMultiplyByG(f, g2);
+    if (!cmpV("calcConstraintAccelerationErrors(udot)", a1, a2) || !cmpV("calcBiasForAccelerationConstraints", b1, b2) || !cmpV("zero-length-udot acceleration errors", z1, z2) || !cmpV("calcBiasForMultiplyByG", g1, g2)) return false;
+    Matrix G1, G2, T1, T2; matter.calcG(h, G1); matter.calcG(f, G2); matter.calcGTranspose(h, T1); matter.calcGTranspose(f, T2);
+    return cmpM("calcG", G1, G2) && cmpM("calcGTranspose", T1, T2);
+}
+
 void runModel(pbt::Ctx& ctx, const consgen::Model& cm, double t0, double udotMag, uint64_t seed, int regimes, bool fitted, bool applyKnown) {
     consgen::BuiltCons m(cm); m.finish(cm.spec); m.setState(cm.spec);
     State& s = m.state; s.setTime(t0);
     if (s.getNU() == 0) { ctx.reject("nu=0"); return; }
+    const State pristine = s;                       // realized to Model stage only: the template of every "fresh" State
+    State sv = s, s1, s0; State* last = nullptr; int lastRegime = 2;
+    auto judgeRegimes = [&]() {
     // R2: the generated state; when the constraint parameters were fitted to it (assembled by construction) a perturbed copy
-    State sv = s;
     if (fitted) {
         Rng rng{seed * 77 + 5}; for (int i = 0; i < sv.getNQ(); ++i) sv.updQ()[i] += 0.3 * rng.next();
         for (int b = 0; b < cm.spec.nBodies(); ++b) if (mbgen::mobHasQuaternion(cm.spec.bodies[b].type) && !cm.spec.euler) {
@@ -244,20 +274,36 @@ void runModel(pbt::Ctx& ctx, const consgen::Model& cm, double t0, double udotMag
         m.sys.realize(sv, Stage::Position);
         if (!consgen::inDomain(cm.spec, m, sv)) { ctx.label("R2:perturbed-outside-domain"); sv = s; }
     }
-    judge(ctx, cm, m, sv, 2, seed, udotMag, applyKnown);
+    judge(ctx, cm, m, sv, 2, seed, udotMag, applyKnown); last = &sv; lastRegime = 2;
     if (ctx.failed || regimes < 2) return;
-    State s1 = s;
+    s1 = s;
     try { m.sys.projectQ(s1, 1e-10); } catch (const std::exception&) { ctx.label("R1:assembly-failed"); return; }
     if (!consgen::inDomain(cm.spec, m, s1)) { ctx.label("R1:assembled-outside-domain"); return; }     // (also catches non-finite q)
-    judge(ctx, cm, m, s1, 1, seed, udotMag, applyKnown);
+    judge(ctx, cm, m, s1, 1, seed, udotMag, applyKnown); last = &s1; lastRegime = 1;
     if (ctx.failed || regimes < 3) return;
-    State s0 = s1;
+    s0 = s1;
     try { m.sys.projectU(s0, 1e-10); } catch (const std::exception&) { ctx.label("R0:velocity-projection-failed"); return; }
     // nearly dependent velocity constraints can only be met with enormous speeds; the difference stencils (h=1e-3) need |u|*h << 1
     // (a diverging Newton iteration can even come back "successful" with NaN speeds: every comparison with NaN is false -- C09's subject)
     for (int i = 0; i < s0.getNU(); ++i) if (!std::isfinite(s0.getU()[i])) { ctx.label("R0:projection-returned-nonfinite-speeds"); return; }
     if (!(maxAbsV(s0.getU()) <= 20)) { ctx.label("R0:projected-speeds-too-large"); return; }
-    judge(ctx, cm, m, s0, 0, seed, udotMag, applyKnown);
+    judge(ctx, cm, m, s0, 0, seed, udotMag, applyKnown); last = &s0; lastRegime = 0;
+    };
+    judgeRegimes();
+    if (ctx.failed || !last) return;
+    // ---- history: the last State judged has been realized and queried through every operator (lazy caches filled). Change ONLY u in that
+    // very State: (a) everything C07 looks at must equal what a fresh State at the identical (t,q,u) gives, (b) all of C07's relations are
+    // re-applied to the re-used State (its difference stencils use states whose q moves, i.e. effectively fresh evaluations). Then a q-only
+    // and, with a time-dependent constraint, a t-only change with the direct comparison.
+    State& h = *last; const int nu = h.getNU();
+    Rng rng{seed * 131 + 17}; Vector udot(nu); for (int i = 0; i < nu; ++i) udot[i] = udotMag * rng.next();
+    {   Vector un(nu); for (int i = 0; i < nu; ++i) un[i] = 2 * rng.next(); h.updU() = un; ctx.label("history:u-only");
+        if (!sameAsFresh(ctx, "history:u-only", m, h, pristine, udot)) return;
+        judge(ctx, cm, m, h, std::max(lastRegime, 1), seed + 1, udotMag, applyKnown); if (ctx.failed) { ctx.msg = "history:u-only (relations re-applied on the re-used State): " + ctx.msg; return; } }
+    {   Vector qn = h.getQ(); for (int i = 0; i < qn.size(); ++i) qn[i] += 0.05 * rng.next(); h.updQ() = qn; ctx.label("history:q-only");
+        if (!sameAsFresh(ctx, "history:q-only", m, h, pristine, udot)) return; }
+    bool timeDep = false; for (auto& c : cm.cons) if (!c.disabled && (c.type == consgen::PrescribedMotion || (c.type == consgen::Custom && c.flavour == 0))) timeDep = true;
+    if (timeDep) { h.setTime(h.getTime() + 0.37); ctx.label("history:t-only"); sameAsFresh(ctx, "history:t-only", m, h, pristine, udot); }
 }
 
 void property(const pbt::Tape& t, pbt::Ctx& ctx) {
@@ -313,7 +359,7 @@ pbt::Config config() {
     c.directed = {{"ball-offmanifold-verr-not-derivative", "c07-coincident-point-offmanifold", directedCoincident},
                   {"noslip1d-aerr-not-derivative", "c07-frozen-material-point-aerr", directedFrozen},
                   {"constantcoordinate-on-ball-bias", "accel-bias-omits-ndot-u", directedBias}};
-    c.requiredLabels = {"regime:R2", "regime:R1", "regime:R0", "cons:Rod", "cons:Ball", "cons:Weld", "cons:PointInPlane", "cons:PointOnLine", "cons:ConstantAngle", "cons:ConstantOrientation", "cons:NoSlip1D",
+    c.requiredLabels = {"regime:R2", "regime:R1", "regime:R0", "history:u-only", "history:q-only", "history:t-only", "cons:Rod", "cons:Ball", "cons:Weld", "cons:PointInPlane", "cons:PointOnLine", "cons:ConstantAngle", "cons:ConstantOrientation", "cons:NoSlip1D",
                         "cons:ConstantCoordinate", "cons:ConstantSpeed", "cons:ConstantAcceleration", "cons:CoordinateCoupler", "cons:SpeedCoupler", "cons:PrescribedMotion", "pair:ancestor-descendant", "pair:separate-branches", "pair:Ground-body",
                         "cons:q-of-mobilizer-with-qdot!=u"};
     return c;
